@@ -497,6 +497,30 @@ func (p *Path) violation(id, where, msg string, m Model) {
 		v.Inputs[in.name] = in.kind + ":" + s
 		v.Order = append(v.Order, in.name)
 	}
+	// uninterpreted-function applications (single-argument): recorded so that the native replay
+	// can answer them the way the model does
+	for name, apps := range p.em.ufApps {
+		for _, app := range apps {
+			if len(app.args) != 1 {
+				continue
+			}
+			var key uint64
+			a := ev.eval(app.args[0])
+			if a.bi != nil {
+				key = uint64(a.bi.Int64())
+			} else {
+				key = a.u
+			}
+			r := ev.eval(app)
+			var val uint64
+			if r.bi != nil {
+				val = uint64(r.bi.Int64())
+			} else {
+				val = r.u
+			}
+			v.Inputs[fmt.Sprintf("uf:%s:%d", name, key)] = fmt.Sprintf("%d", val)
+		}
+	}
 	if len(p.known) > 0 {
 		v.Known = p.known[len(p.known)-1]
 	}
